@@ -20,8 +20,14 @@ const zz = "github.com/resgateio/resgate/zzvf."
 func init() {
 	for k, v := range map[string]externalFn{
 		// ---- harness vocabulary
-		zz + "Symbolic":        func(fr *frame, a []value) value { return true },
-		zz + "Param":           extParam,
+		zz + "Symbolic": func(fr *frame, a []value) value { return true },
+		zz + "Param":    extParam,
+		zz + "ParamOr": func(fr *frame, a []value) value {
+			if v, ok := fr.i.x.Params[a[0].(string)]; ok {
+				return v
+			}
+			return a[1]
+		},
 		zz + "Int":             func(fr *frame, a []value) value { return extInput(fr, a, types.Int) },
 		zz + "Int64":           func(fr *frame, a []value) value { return extInput(fr, a, types.Int64) },
 		zz + "Int32":           func(fr *frame, a []value) value { return extInput(fr, a, types.Int32) },
